@@ -297,7 +297,9 @@ def extract_pin_cite(
             extra_chars = len(m["pin_cite"].rstrip(", "))
         else:
             pin_cite = None
-            extra_chars = 0
+            # nothing beyond the token was consumed: the prefix (the page of
+            # a short cite) is part of the token and must not be cut off
+            extra_chars = len(prefix)
         parenthetical = process_parenthetical(m["parenthetical"])
         return (
             pin_cite,
